@@ -613,15 +613,19 @@ func c14RandEntries(r *Rng) []byte {
 func genC14(c *Ctx) {
 	r := c.Rng
 	total := func(name string, args ...Val) { c.Check("c14.total", S(name), L(args...)) }
-	decodeBlob := func(b []byte) {
+	// hashing is what costs on the model side (SHA-256 over binary N): hash_raw rides along on request only
+	decodeBlobH := func(b []byte, hash bool) {
 		c.Case("c14.kc.from_bytes", B(b))
 		c.Case("c14.kc.verify", B(b))
 		c.Case("c14.kc.reserialize", B(b))
-		c.Case("c14.kc.hash_raw", B(b))
 		total("c14.kc.from_bytes", B(b))
 		total("c14.kc.verify", B(b))
 		total("c14.kc.hash_raw", B(b))
+		if hash {
+			c.Case("c14.kc.hash_raw", B(b))
+		}
 	}
+	decodeBlob := func(b []byte) { decodeBlobH(b, true) }
 
 	// ---- structured credentials: correspondence on small and medium keys, oracles on all sizes
 	modLens := []int{0, 1, 2, 3, 4, 8, 16, 32, 64, 64, 96, 128, 128, 256}
@@ -664,29 +668,34 @@ func genC14(c *Ctx) {
 		c.Check("c14.tamper", a...)
 	}
 	// the same corruptions as correspondence cases on small blobs: every bit, every truncation
-	for rep := 0; rep < c.N(8, 40); rep++ {
-		a := c14StructArgs(r, []int{0, 4, 8, 16, 24, 32, 48, 64}[rep%8])
+	for rep := 0; rep < c.N(3, 24); rep++ {
+		a := c14StructArgs(r, []int{0, 8, 16, 4, 24, 32, 48, 64}[rep%8])
 		a[0] = U(c14Versions[rep%3])
 		blob := c14BlobOf(a)
 		for bit := 0; bit < 8*len(blob); bit++ {
 			m := c14Flip(blob, bit)
 			c.Case("c14.kc.verify", B(m))
-			if bit%8 == 0 || rep == 0 {
-				total("c14.kc.verify", B(m))
-			}
-			if rep < 2 {
+			total("c14.kc.verify", B(m))
+			if rep == 0 && bit%8 < 2 {
 				c.Case("c14.kc.from_bytes", B(m))
 				c.Case("c14.kc.hash_raw", B(m))
 			}
 		}
-		for _, m := range Malformed(blob, len(blob)) {
-			decodeBlob(m)
+		for _, m := range Truncations(blob) {
+			decodeBlobH(m, rep == 0)
+		}
+		if rep == 0 {
+			for _, m := range Corruptions(blob, len(blob)) {
+				c.Case("c14.kc.verify", B(m))
+				c.Case("c14.kc.from_bytes", B(m))
+				total("c14.kc.verify", B(m))
+			}
 		}
 	}
 	// arbitrary entry streams and raw noise into every blob decoder
 	for rep := 0; rep < c.N(600, 8000); rep++ {
 		b := c14RandEntries(r)
-		decodeBlob(b)
+		decodeBlobH(b, rep%3 == 0)
 		c.Case("c14.kc.integrity", B(b), B(r.Bytes(r.Pick(0, 31, 32, 32, 33))))
 		total("c14.kc.integrity", B(b), B(nil))
 		if rep%4 == 0 {
@@ -812,7 +821,7 @@ func genC14(c *Ctx) {
 
 	// ---- DN with binary
 	dnAlpha := "CN=usr,OUDCcorp :\\\"#+;<>0123\x00\xff"
-	for rep := 0; rep < c.N(300, 5000); rep++ {
+	for rep := 0; rep < c.N(150, 3000); rep++ {
 		dn := r.StringOver(dnAlpha, r.Intn(30))
 		switch r.Intn(6) {
 		case 0:
